@@ -45,6 +45,36 @@ def sticky_exit_status(ctx, rule):
                 ok = isinstance(v, int) and v != 0 and after_walks and still_zero and flagged
             ctx.ob(rule, "status-init", ok, "do_find's status is set to the constant %s at %s; oracle: the initial 0 before the first starting point, or a non-zero constant after the last walk when the status is still 0 and -files0-from recorded unusable names" % (v, prim.site(df, bb, obj)), fn=df, where=prim.site(df, bb, obj), how="local writers + dominating guards")
             continue
+        # (a helper `merge(so_far, code)` spliced in: the value written is one of several, each judged where it is chosen;
+        #  keeping the status as it is needs no justification)
+        alts = _status_alternatives(df, bb, kind, obj, o, status)
+        if alts is not None:
+            for abb, ao in alts:
+                _do_find_sticky_one(ctx, rule, df, abb, obj, ao)
+            continue
+        _do_find_sticky_one(ctx, rule, df, bb, obj, o)
+    ctx.floor(rule, "writers of do_find's status", len(ws), 2)
+    _process_dir_sticky(ctx, rule)
+
+
+def _status_alternatives(f, bb, kind, obj, o, status):
+    """[(block, origin)] of the values a status write can take when it is a choice made on the way (None: a plain value)"""
+    if o.k != "phi" or kind != "assign" or obj.rv is None or obj.rv.k != "use" or obj.rv.ops[0].place is None or not obj.rv.ops[0].place.is_local():
+        return None
+    alts = prim.alternatives(f, obj.rv.ops[0].place.local)
+    if len(alts) < 2:
+        return None
+    out = []
+    for abb, ao in alts:
+        a_ = ao.strip()
+        if a_.k == "var" and a_.a.get("local") == status:
+            continue
+        out.append((abb, a_))
+    return out
+
+
+def _do_find_sticky_one(ctx, rule, df, bb, obj, o):
+    if True:
         # must be the result of process_dir, under a guard that it is non-zero
         from_pd = o.k == "call" and o.a["callee"] == C.PROCESS_DIR or (o.k == "var" and df.local_name(o.a.get("local")) == "dir_ret")
         gs = prim.dominating_guards(df, bb)
@@ -61,7 +91,9 @@ def sticky_exit_status(ctx, rule):
         ctx.ob(rule, "status-sticky", from_pd and nz,
                "do_find assigns its status from %s; it may only take a walk's status when that status is non-zero (a failure under an earlier starting point must not be overwritten by a later success); guards: %s" % (o.fmt(), prim.guards_fmt(gs)),
                fn=df, where=prim.site(df, bb, obj), how="local writers + dominating guard")
-    ctx.floor(rule, "writers of do_find's status", len(ws), 2)
+
+
+def _process_dir_sticky(ctx, rule):
     # process_dir: same for its own status
     pf = ctx.fn(rule, C.PROCESS_DIR)
     if pf is None:
@@ -83,16 +115,20 @@ def sticky_exit_status(ctx, rule):
                 ok = not any(bb in pf.reach_from([nb]) for nb, t in pf.calls() if C.walk_role(t) == "next")
                 ctx.ob(rule, "walk-status-init", ok, "process_dir resets its status to 0 inside the walk loop", fn=pf, where=prim.site(pf, bb, obj), how="reachability")
             continue
-        from_ec = any(c.endswith("MatcherIO::<'_>::exit_code") for c in o.callees())
-        gs = prim.dominating_guards(pf, bb)
-        nz = False
-        for gd in gs:
-            pr = gd["pred"].strip()
-            if pr.k == "call" and pr.a["callee"].endswith("MatcherIO::<'_>::exit_code") and 0 not in gd["labels"]:
-                nz = True
-            if pr.k == "bin" and pr.a in ("Ne", "Eq") and any(c.get("v") == 0 for c in pr.consts()) and any(c.endswith("exit_code") for c in pr.callees()):
-                if (pr.a == "Ne") == (gd["bool"] is True):
-                    nz = True
+        alts = _status_alternatives(pf, bb, kind, obj, o, st) or [(bb, o)]
+        from_ec, nz, gs = True, True, []
+        for abb, ao in alts:
+            from_ec = from_ec and any(c.endswith("MatcherIO::<'_>::exit_code") for c in ao.callees())
+            gs = prim.dominating_guards(pf, abb)
+            nz1 = False
+            for gd in gs:
+                pr = gd["pred"].strip()
+                if pr.k == "call" and pr.a["callee"].endswith("MatcherIO::<'_>::exit_code") and 0 not in gd["labels"]:
+                    nz1 = True
+                if pr.k == "bin" and pr.a in ("Ne", "Eq") and any(c.get("v") == 0 for c in pr.consts()) and any(c.endswith("exit_code") for c in pr.callees()):
+                    if (pr.a == "Ne") == (gd["bool"] is True):
+                        nz1 = True
+            nz = nz and nz1
         n_fold += 1
         ctx.ob(rule, "walk-status-sticky", from_ec and nz, "process_dir assigns its status from %s; only a non-zero matcher exit code may be folded in; guards: %s" % (o.fmt(), prim.guards_fmt(gs)), fn=pf, where=prim.site(pf, bb, obj), how="local writers + dominating guard")
     ctx.floor(rule, "exit-code folds in process_dir", n_fold, 2)
